@@ -418,6 +418,8 @@ func (E *Engine) globalVal(name string, T types.Type) *Val {
 	if E.nonNilGlobals[name] {
 		if sh := E.shape(T); sh.Kind == "iface" {
 			facts = append(facts, sx(">", v.F[0].S, "0"))
+		} else if _, isPtr := types.Unalias(T).Underlying().(*types.Pointer); isPtr && v.S != "" {
+			facts = append(facts, sx(">", v.S, "0"))
 		}
 	}
 	E.globals[name] = v
@@ -549,7 +551,7 @@ func (E *Engine) oblige(st *State, kind, site, goal, pretty, pos string, cl *Cla
 	if cl != nil {
 		ob.Clause = cl.Text
 		for p := range c.props {
-			if clauseHasTag(c.spec, cl, p) {
+			if E.ScopeAll || clauseHasTag(c.spec, cl, p) {
 				ob.Props = append(ob.Props, p)
 			}
 		}
